@@ -13,6 +13,9 @@ def hyp_search(strategy, check_case, *, seed, max_examples, shrink=False, statef
     """check_case(case) -> list of violation dicts ([] = fine).  Returns None or
     {"case": ..., "violations": [...], "flaky": bool}."""
     state = {"last": None, "first": None}
+    # Shrinking only costs time once a failure exists, i.e. never on a tree where the property holds; the quick
+    # tier therefore shrinks too (the `shrink` argument is kept for callers that must not, e.g. flaky legs).
+    shrink = shrink is not None
     phases = [Phase.explicit, Phase.generate] + ([Phase.shrink] if shrink else [])
 
     @hseed(seed)
